@@ -13,7 +13,7 @@ PROPERTY = "C14"
 LEVEL = "model_checking"
 RULE = ("explicit-state breadth-first search over tool histories: state = plotfile directory + expected in-memory contents "
         "(RefPlot); transitions = colander(vars in {all, [first], [last,first], [unknown,second]}, limit in {None,0}), "
-        "chef(2-argument user recipe on the first field, kept in {None, first}), combine(current, other) and combine(other, "
+        "chef(2-argument user recipe on the first field, kept in {None, first, 'third first'}), combine(current, other) and combine(other, "
         "current) for other in {sibling on the same mesh with other fields and another layout, every ancestor of the history}; "
         "roots = a 2D and two 3D generated plotfiles and a chk2plt conversion; every state is deduplicated on a canonical key "
         "(contents bits + on-disk layout) and checked: reference validation, taste (default + coordinates), contents = the "
@@ -103,8 +103,8 @@ def events(st, sibling, ancestors):
             ev.append(("colander", sel, lim))
     if st.ref.ndims == 3:
         for rname, new in (("r1", "ck"), ("r2", "ck2")):
-            for kept in (None, f[0]):
-                names = ([kept] if kept else []) + [new]
+            for kept in (None, f[0]) + ((f[2] + " " + f[0],) if len(f) >= 3 and rname == "r1" and " " not in f[2] + f[0] else ()):
+                names = (kept.split() if kept else []) + [new]
                 if len(set(names)) == len(names):
                     ev.append(("chef", rname, kept))
         others = ([("sibling", sibling)] if sibling is not None else []) + [("anc%d" % i, a) for i, a in enumerate(ancestors)]
@@ -132,12 +132,12 @@ def apply_event(ev, st, workdir, k, recipes):
         coef = (2.0, 1.0) if rname == "r1" else (0.5, -3.0)
         new = "ck" if rname == "r1" else "ck2"
         ref = st.ref
-        ki = [ref.fields.index(kept)] if kept else []
+        ki = [ref.fields.index(k_) for k_ in kept.split()] if kept else []
 
         def arr(lv, b):
             a = ref.data[lv][b]
             return np.concatenate([a[..., ki], (a[..., 0] * coef[0] + coef[1])[..., None]], axis=-1)
-        exp = ref.with_fields(([kept] if kept else []) + [new], arr)
+        exp = ref.with_fields((kept.split() if kept else []) + [new], arr)
         with vpool.controlled():
             r = call(lambda: Chef(st.path, recipe=recipes[rname], outfile=out, serial=True, kept_fields=kept).cook())
         return r, out, exp
@@ -214,6 +214,8 @@ def run_case(case, workdir):
     while frontier:
         st, ancestors = frontier.popleft()
         evs = events(st, sibling, ancestors)
+        if first and len(evs) > 16:
+            raise RuntimeError("harness: %d first events, the cases partition only 16" % len(evs))
         if first:
             # this case explores the subtree below ONE first event (the cases of a root partition its first events)
             evs = [evs[case["first"]]] if case["first"] < len(evs) else []
